@@ -122,6 +122,11 @@ func (r *Reader) readRecord() (*record, error) {
 	// Read payload
 	data := make([]byte, length)
 	if _, err := io.ReadFull(r.reader, data); err != nil {
+		if err == io.EOF && length > 0 {
+			// The header was read, so this is a record cut right behind its
+			// header, not the end of the log
+			err = io.ErrUnexpectedEOF
+		}
 		return nil, err
 	}
 
